@@ -85,16 +85,18 @@ PLAN = {
     "C14": {
         "quick": [
             {"kind": "enum", "test": "TestEnumC14", "timeout": 900},
+            {"kind": "enum", "test": "TestEnumC14Big", "timeout": 900},
             {"kind": "rapid", "test": "TestC14Fwd", "checks": 50000},
         ],
         "thorough": [
             {"kind": "enum", "test": "TestEnumC14", "timeout": 1800},
+            {"kind": "enum", "test": "TestEnumC14Big", "timeout": 1800},
             {"kind": "rapid", "test": "TestC14Fwd", "checks": 300000, "shards": 16},
         ],
     },
     "C02": {
         "quick": [
-            {"kind": "rapid", "test": "TestC02Pair", "checks": 100000},
+            {"kind": "rapid", "test": "TestC02Pair", "checks": 80000},
         ],
         "thorough": [
             {"kind": "rapid", "test": "TestC02Pair", "checks": 400000, "shards": 16},
@@ -104,9 +106,11 @@ PLAN = {
     "C04": {
         "quick": [
             {"kind": "rapid", "test": "TestC04Diff", "checks": 150000},
+            {"kind": "rapid", "test": "TestC04Num", "checks": 150000},
         ],
         "thorough": [
             {"kind": "rapid", "test": "TestC04Diff", "checks": 500000, "shards": 16},
+            {"kind": "rapid", "test": "TestC04Num", "checks": 500000, "shards": 16},
             {"kind": "fuzz", "test": "FuzzC04", "time": 90},
         ],
     },
@@ -140,7 +144,7 @@ PLAN = {
     "C09": {
         "quick": [
             {"kind": "enum", "test": "TestEnumC09", "env": {"VERIF_BOUND": 3}, "timeout": 600},
-            {"kind": "rapid", "test": "TestC09Hist", "checks": 15000},
+            {"kind": "rapid", "test": "TestC09Hist", "checks": 12000},
         ],
         "thorough": [
             {"kind": "enum", "test": "TestEnumC09", "env": {"VERIF_BOUND": 5}, "timeout": 5400},
